@@ -147,8 +147,8 @@ def judge (c : Case) (o : Json) : Verdict :=
 
 def handle (i o : Json) : Except String Reply := do
   let c ← parseCase i
-  if !(Spec.wfOps c.inp.allTasks [] c.inp.ops) then
-    throw "ill-formed history (a task queued twice without a remove in between, or an orphan that is a task name)"
+  if !(Spec.wfOps c.inp.allTasks c.inp.names ([], []) c.inp.ops) then
+    throw "ill-formed history (a task queued twice without a remove in between, a queued proxy whose name is neither a task nor an adopted orphan, or an orphan that is a task name)"
   let v := judge c o
   return { model := modelOut c, holds := v.ok, why := v.why }
 
